@@ -93,7 +93,7 @@ func NewParametersFromLiteral(pl ParametersLiteral) (Parameters, error) {
 		return Parameters{}, fmt.Errorf("cannot NewParametersFromLiteral: %w", err)
 	}
 
-	if pl.LogDefaultScale > 128 {
+	if pl.LogDefaultScale > 128 || pl.LogDefaultScale < 0 {
 		return Parameters{}, fmt.Errorf("cannot NewParametersFromLiteral: LogDefaultScale=%d > 128 or < 0", pl.LogDefaultScale)
 	}
 
